@@ -133,6 +133,8 @@ def cells(tier):
     out.append(mcell(PID, 'payload', ['metaB', 'roEdStart'], T=T, meta_split=True))
     for N, k in ((2, 1), (2, 2), (3, 0), (1, 3)):
         out.append(rcell(PID, N, k, T=T))
+    out.append(rcell(PID, 2, 2, T=T, repeat_id=True))
+    out.append(rcell(PID, 1, 1, T=T, repeat_id=True))
     # roMetadataReplace into a running order without stories
     from .p_c04 import mcell as _mcell
     for carry in ([], ['fresh'], ['metaX'], ['roEdStart', 'metaA']):
